@@ -36,12 +36,12 @@ EmplaceKinds == CASE Preset = "ids" -> {"base", "constant", "structured", "term"
 KindDefs(k) == CASE Preset = "ids" -> {1, 2}
                  [] Preset = "dups" -> IF k = "base" THEN {1} ELSE {2, 5}
                  [] Preset = "deps" -> IF k = "base" THEN {1} ELSE {2, 5, 6, 7, 8, 17}
-                 [] Preset = "kinds" -> (CASE k = "base" -> {1} [] k = "structured" -> {4, 18} [] k = "term" -> {2, 5, 9, 10, 11, 13, 16}
+                 [] Preset = "kinds" -> (CASE k = "base" -> {1} [] k = "structured" -> {4, 18} [] k = "term" -> {2, 5, 9, 10, 11, 13, 16, 22, 23, 24}
                                           [] k = "function" -> {12} [] k = "axiom" -> {14, 15})
                  [] Preset = "names" -> IF k = "base" THEN {1} ELSE {5, 16, 19}
                  [] Preset = "ops" -> (CASE k = "base" -> {1} [] k = "term" -> {2, 5, 6, 10, 20, 21} [] k = "axiom" -> {15})
 \* definitions offered to SetExpression
-EditDefs == CASE Preset = "ids" -> {1, 2} [] Preset = "dups" -> {} [] Preset = "deps" -> {2, 5, 6, 7, 8, 17} [] Preset = "kinds" -> {1, 2, 5, 10, 12, 13, 14, 16} [] Preset = "names" -> {} [] Preset = "ops" -> {}
+EditDefs == CASE Preset = "ids" -> {1, 2} [] Preset = "dups" -> {} [] Preset = "deps" -> {2, 5, 6, 7, 8, 17} [] Preset = "kinds" -> {1, 2, 5, 10, 12, 13, 14, 16, 22} [] Preset = "names" -> {} [] Preset = "ops" -> {}
 AliasPool == CASE Preset = "ids" -> {"X1", "X2", "D1", "Q7"} [] Preset = "dups" -> {"D3"} [] Preset = "kinds" -> {"D1", "D2", "X2"} [] Preset = "names" -> {"X1", "X11", "X2", "D1", "D11", "D2"} [] OTHER -> {}
 RecUids == {1, 2}
 RecAliases == IF Preset = "names" THEN {"X1", "D1", "X11"} ELSE {"X1", "D1", "Q7"}
@@ -70,7 +70,10 @@ DefPool == <<
   Node("BOOLEAN", <<G1("X2")>>),                                          \* 18 depends on X2
   Node("UNION", <<Node("UNION", <<G1("X1"), G1("X11")>>), Node("DECLARATIVE", <<Loc("x1"), G1("D1"), Node("IN", <<Loc("x1"), G1("D11")>>)>>)>>),  \* 19 X1, X11, D1, D11 and a local x1
   Node("UNION", <<G1("X2"), G1("X1")>>),                                  \* 20 two base sets
-  Node("UNION", <<G1("D3"), G1("D2")>>)                                   \* 21 depends on later terms
+  Node("UNION", <<G1("D3"), G1("D2")>>),                                  \* 21 depends on later terms
+  Node("BOOLEAN", <<G1("X1")>>),                                          \* 22 a property (power set), not a value
+  Node("CARD", <<G1("D1")>>),                                             \* 23 needs a value: improper when D1 is a property
+  Call("F1", <<G1("D1")>>)                                                \* 24 call whose argument may be a property
 >>
 Words == <<"note", "X1", "D1">>                       \* conventions: plain word, and words that are aliases
 \* a plain "word" may itself be reference syntax the model does not interpret: a collaboration reference stays as it is
@@ -121,7 +124,7 @@ Obs ==
       LET u == order[i]  c == cst[u]  r == an[c.alias] IN
       [uid |-> u, alias |-> c.alias, kind |-> c.kind, d |-> Toks(c.def), conv |-> c.conv, term |-> c.term, text |-> c.text,
        tracked |-> u \in DOMAIN trk, allow |-> IF u \in DOMAIN trk THEN trk[u].allowEdit ELSE FALSE,
-       ok |-> r.ok, type |-> IF r.ok THEN TypeStr(r.type) ELSE "", 
+       ok |-> r.ok, type |-> IF r.ok THEN TypeStr(r.type) ELSE "", vc |-> r.vc,
        args |-> IF r.ok THEN [k \in DOMAIN r.args |-> [name |-> r.args[k].name, type |-> TypeStr(r.args[k].type)]] ELSE <<>>,
        deps |-> SetToSeq(Deps(cst, u))]]]
 Emit == PrintT(<<"CASE", ToJson([hist |-> hist, obs |-> Obs])>>)
